@@ -77,6 +77,7 @@ type verifSlot struct {
 }
 
 type verifEnv struct {
+	self  int // committee entry of the participant under test
 	p     *Participant
 	h     *verifHost
 	c     *Committee
@@ -147,13 +148,18 @@ func newVerifEnv(input *ECChain, symbolicPowers bool) *verifEnv {
 	} else if symbolicPowers {
 		verifPowerClass(c)
 	}
+	return newVerifEnvOver(c, input)
+}
+
+// newVerifEnvOver: a participant environment over a given (possibly shared) committee.
+func newVerifEnvOver(c *Committee, input *ECChain) *verifEnv {
 	h := &verifHost{c: c, input: input, now: time.Unix(1000, 0)}
 	p, err := NewParticipant(h, WithMaxLookaheadRounds(1))
 	if err != nil {
 		panic(err)
 	}
 	p.options.rebroadcastAfter = func(int) time.Duration { return 3 * time.Second }
-	e := &verifEnv{p: p, h: h, c: c, input: input, emitted: map[verifSlot]bool{}, decideVotes: map[ActorID]*ECChain{}}
+	e := &verifEnv{self: verifSelfIdx, p: p, h: h, c: c, input: input, emitted: map[verifSlot]bool{}, decideVotes: map[ActorID]*ECChain{}}
 	for i := range e.votes {
 		e.votes[i] = map[verifSlot]*ECChain{}
 	}
@@ -281,7 +287,7 @@ func (e *verifEnv) fireAlarm(late time.Duration) {
 // echo delivers the participant's own i-th broadcast back to it (as the host does).
 func (e *verifEnv) echo(i int) {
 	mb := e.h.broadcasts[i]
-	m, err := mb.Build(context.Background(), VerifCrypto{}, e.c.PowerTable.Entries[verifSelfIdx].ID)
+	m, err := mb.Build(context.Background(), VerifCrypto{}, e.c.PowerTable.Entries[e.self].ID)
 	if err != nil {
 		return
 	}
@@ -372,10 +378,10 @@ func (e *verifEnv) monitor() {
 		}
 		sym.Assert(pl.Instance == verifInstance, "R2: emitted for the current instance")
 		// self's signature now exists
-		e.votes[verifSelfIdx][s] = pl.Value
+		e.votes[e.self][s] = pl.Value
 		// R2: everything emitted is valid for peers: build it with the real
 		// builder and validate it with a fresh real validator at the sender's progress
-		m, err := mb.Build(ctx, VerifCrypto{}, e.c.PowerTable.Entries[verifSelfIdx].ID)
+		m, err := mb.Build(ctx, VerifCrypto{}, e.c.PowerTable.Entries[e.self].ID)
 		sym.Assert(err == nil, "R2: the emitted message can be built and signed")
 		if err == nil {
 			prog := InstanceProgress{Instant: Instant{ID: verifInstance, Round: pl.Round, Phase: QUALITY_PHASE}}
